@@ -163,6 +163,17 @@ CHECKS = {
             'Both presentations go through RSOME (no external oracle): a defect shared by all presentations is invisible here and is '
             'the business of C01-C08; kldiv() on decisions has no dro presentation (rejected by design).',
             'DESIGN.md section 4 / C15'),
+    'C09': ('model-based property testing over generated call histories: the live model driven by a drawn schedule is compared after every '
+            'phase with the model-so-far rebuilt from scratch (differential) and with the independent cutting-plane optimum (absolute)',
+            'Generated-input search over histories of ro models (creation order of constraint objects and their forall() sets vs st() '
+            'order, position of minmax(), 1-3 phases ending in solve / do_math(primal) / do_math(dual) / repeated solve, further st() '
+            'and a new dvar() after a solve, shared expression and set objects), of dro models (constraints added after solve / '
+            'do_math) and of models made only of exp-cone-family constraints (a cut added after a solve must not be lost). The '
+            'optimum of the dual program returned by do_math(primal=False) is checked as well (stale dual cache). Sampling, not proof.',
+            'History generation is a drawn schedule over a fixed model IR (replayable JSON) rather than a Hypothesis RuleBasedStateMachine; '
+            'a leak that affects the history and the from-scratch build identically is only caught by the absolute oracle, which needs '
+            'sets with an exact maximiser.',
+            'DESIGN.md section 4 / C09'),
 }
 
 NOT_YET = 'check not built yet in this round (see DESIGN.md section 4 for the planned generator and oracle)'
